@@ -15,6 +15,7 @@ def run(ck, fb):
     r15i(ck, fb)
     r15k(ck, fb)
     r15l(ck, fb)
+    r15m(ck, fb)
     ck.borrow('rules.c14', {'R14g': 'R15j'}, 'a refused cluster message is a lost registry / view change: the nodes cannot converge on it')
 
 
@@ -516,3 +517,40 @@ def r15l(ck, fb, R='R15l'):
                'update_instance never recognises an incoming copy of an instance this node holds itself (from_cluster == self.node_id): the copy is stored '
                'with the node\'s own id as foreign origin, and build_snapshot_data / build_distro_instances (which skip is_from_cluster()) leave the instance '
                'out for ever', 'from_cluster == node_id is recognised and stored as own')
+
+
+def r15m(ck, fb, R='R15m'):
+    ck.rule(R, '"a node that (re)joins receives the others\' data" - also the data about the services it owns itself: those exist on the peers only as '
+               'copies, and no peer counts them as its own. The ranges a peer answers a QuerySnapshot with (get_cluster_process_range) include a '
+               'ProcessRange built from the position of the ASKING node among the valid nodes and their number (the same population as R14a), and the '
+               'QuerySnapshot arm of handle_naming_route hands the id of the asking node to that request. (Before the repair the asking node\'s '
+               'services were sent only while the start-up range (0,1) was still in history_ranges - the first 16.7 h of a peer\'s uptime.)')
+    INM = 'rnacos::naming::cluster::node_manage::InnerNodeManage::'
+    g = ck.body(INM + 'get_cluster_process_range', R)
+    if g:
+        ids = [l for l in range(2, g.argc + 1) if (g.local_ty(l) or '') == 'u64']
+        news = g.calls(r'cluster::model::ProcessRange::new$')
+        tree = fb.tree(INM + 'get_cluster_process_range')
+        # the closure of `position` compares with the id parameter (captured)
+        pos = g.calls(r'Iterator>::position|Iterator::position')
+        tp = Taint(g, call_src=lambda t: re.search(r'Iterator>::position|Iterator::position', cfg.callee_name(t) or '') is not None)
+        tf = Taint(g, call_src=lambda t: re.search(r'Iterator>::filter|Iterator::filter', cfg.callee_name(t) or '') is not None)
+        tid = Taint(g, local_src=ids)
+        valid = any(c.calls(r'ClusterInnerNode::is_valid$') for c in tree[1:])
+        good = [s0 for s0 in news if len(s0.args) == 2 and tp.op_tainted(s0.args[0]) and tf.op_tainted(s0.args[1])]
+        asks = [s0 for s0 in pos if any(tid.op_tainted(a) for a in s0.args)]
+        pushed = [p0 for p0 in g.calls(r'Vec::<.*>::push$') for s0 in good
+                  if Taint(g, local_src=[s0.dst] if isinstance(s0.dst, int) else []).op_tainted(p0.args[1])]
+        ck.require(bool(ids) and bool(good) and bool(asks) and valid and bool(pushed), R, 'get_cluster_process_range:includes-asking-node', g.where(),
+                   'the ranges a peer answers a snapshot query with do not include the range of the node that asks (position of its id among the '
+                   'valid nodes, number of valid nodes): a node restarted faster than the failure detection never gets the HTTP instances of the '
+                   'services it owns back from its peers; with a silent client the nodes differ for ever', 'the asking node\'s range is added')
+    h = [b for b in fb.find(r'^rnacos::naming::cluster::handle_naming_route') if True]
+    hs = [b for b in h if util.sends(b, r'NodeManageRequest$', 'QueryOwnerRange')]
+    ck.floor(R, 'bodies that send QueryOwnerRange', len(hs), 1)
+    for b in hs:
+        ck.analysed(b)
+        t = Taint(b, call_src=lambda t: (cfg.callee_name(t) or '').endswith('get_cluster_id'))
+        for (s0, m0, v0, a0) in util.sends(b, r'NodeManageRequest$', 'QueryOwnerRange'):
+            ck.require(any(t.op_tainted(o) for o in a0['ops']), R, 'handle_naming_route:QueryOwnerRange-carries-asking-node', s0.where(),
+                       'the snapshot query does not tell the node manager which node asks', 'the id of the asking node is part of the request')
